@@ -12,7 +12,7 @@ A class with one undecorated definition holds a plain function; with several, on
 with `@extend_super`, the inherited methods of all its bases (in base order) overlaid by the decorated definition,
 overlaid by the body's remaining definitions; without definitions it inherits the attribute along its MRO.
 `__prepare__`: when a second or later base holds a method still marked `extend_super`, the body starts from the
-first base's overloaded method with those mixed in.
+first base's overloaded method with those mixed in, followed by the plain functions of the bases.
 -/
 set_option autoImplicit false
 namespace Ovld.ClassBody
@@ -48,11 +48,13 @@ def effStep (acc : List Eff) (k : ClassDecl) : List Eff :=
   let mix := ov.tail.filter (·.flagged)
   if usesMC && !mix.isEmpty then
     let plainDs : List Def := vals.filterMap (fun e => if e.kind == .plain then e.fn else none)
-    let ms := (ov.head?.toList ++ mix).map (·.defns)
+    -- the first overloaded base, the later flagged ones, then the plain functions of the bases: all mixed in, in that
+    -- order (a later one replaces an identical signature of an earlier one); the body's definitions come on top
+    let ms := (ov.head?.toList ++ mix).map (·.defns) ++ plainDs.map (fun d => nodeDefns [] [d])
     match own, k.extend with
     | d :: rest, true =>
-      acc ++ [{ kind := .ovld, defns := nodeDefns (ms ++ [nodeDefns [] [d]]) (plainDs ++ rest), hasF := true }]
-    | _, _ => acc ++ [{ kind := .ovld, defns := nodeDefns ms (plainDs ++ own), hasF := true }]
+      acc ++ [{ kind := .ovld, defns := nodeDefns (ms ++ [nodeDefns [] [d]]) rest, hasF := true }]
+    | _, _ => acc ++ [{ kind := .ovld, defns := nodeDefns ms own, hasF := true }]
   else match own, k.extend && usesMC with
     | d :: rest, true =>
       let inh := vals.filter (fun e => e.kind != .none)
